@@ -56,8 +56,26 @@ def check_tree(elem, cls, out, path=""):
             t = t.converter
         text = child.text
         bad = lexical_violation(t, text)
+        if not bad and isinstance(t, Types.OneOf) and isinstance(text, str):
+            bad = token_shape_violation(cls.__name__, attr, text)
         if bad:
             out.append((bad, f"{p}.{attr}: wrote {text!r}"))
+
+
+def token_shape_violation(clsname, attr, text):
+    """A token the running library declares but the baseline did not (pbt/data/enum_tokens.json) may be a legitimate
+    addition - if it looks like its neighbours: the same length range and alphabet as the tokens the baseline declares for
+    that element (currency codes are three capitals, ...)."""
+    from pbt.checks.c03 import _snapshot
+
+    base = _snapshot().get(clsname, {}).get(attr)
+    if not base or text in base:
+        return None
+    lens = {len(x) for x in base}
+    alphabet = set("".join(base))
+    if not (min(lens) <= len(text) <= max(lens)) or not set(text) <= alphabet:
+        return "token-unlike-the-declared-ones"
+    return None
 
 
 def lexical_violation(t, text):
